@@ -24,6 +24,7 @@ THE SOFTWARE.
 """
 
 import ast
+from copy import deepcopy
 from functools import cached_property, lru_cache
 
 
@@ -262,7 +263,11 @@ def optimize_mapper(
 
         # This also needs Py3.8 for the walrus operators used in inlined rec.
 
-        cls_ast = _get_ast_for_class(cls)
+        # The module ASTs are cached (and shared between invocations), while
+        # the transformers below modify the trees they visit in place.
+        # Work on copies, so that one invocation cannot change what
+        # later ones see.
+        cls_ast = deepcopy(_get_ast_for_class(cls))
 
         # {{{ gather relevant method definitions
 
@@ -288,7 +293,7 @@ def optimize_mapper(
                     continue
 
                 seen_module_names.add(method.__module__)
-                method_ast = _get_ast_for_method(method)
+                method_ast = deepcopy(_get_ast_for_method(method))
                 if name != method_ast.name:
                     # This happens for aliases. Make them separate methods.
                     method_ast = _replace(method_ast, name=name)
